@@ -178,11 +178,11 @@ func c07Consul(c *core.Ctx) {
 	CC := fn.Canon(casCall.Expr)
 	if len(after) == 1 && casStmt != nil {
 		t := an.Table{G: g, From: g.Locate(casStmt), Opts: an.ExecOpts{Header: header},
-			Atoms:   []an.Atom{{Name: "ok", Values: []string{"T", "F"}}, {Name: "errnil", Values: []string{"T", "F"}}},
+			Atoms: []an.Atom{{Name: "ok", Values: []string{"T", "F"}}, {Name: "errnil", Values: []string{"T", "F"}}},
 			Binder: &an.Binder{Fn: fn, Re: []an.ReRole{an.RE(`^recv\.kv\.CAS\(.*\)#(\d)$`, "CAS#$1")},
 				Bool: map[string]string{"CAS#0": "ok"}, Eq: map[string]string{"CAS#2|nil": "errnil"}},
 			Targets: []an.Loc{g.Locate(after[0])}, Names: []string{"return nil"},
-			Want:    func(r an.Row, _ int) an.Tri { return an.FromBool(r["ok"] == "T" && r["errnil"] == "T") }}
+			Want: func(r an.Row, _ int) an.Tri { return an.FromBool(r["ok"] == "T" && r["errnil"] == "T") }}
 		_ = CC
 		res := t.Run()
 		c.Check(res.OK(), "R3", "backend=consul:success", after[0].Pos(), "success return ⇔ CAS ok ∧ err==nil: "+res.Summary(), res.Rows)
@@ -242,7 +242,7 @@ func c07Declined(c *core.Ctx, fn *an.Fn, backend string, fCall, writeCall *an.Ca
 	}
 	nres := 3
 	t := an.Table{G: g, From: g.Locate(fStmt), Opts: an.ExecOpts{Header: header}, MayOnly: true,
-		Atoms:   []an.Atom{{Name: "ferrnil", Values: []string{"T", "F"}}, {Name: "outnil", Values: []string{"T", "F"}}},
+		Atoms: []an.Atom{{Name: "ferrnil", Values: []string{"T", "F"}}, {Name: "outnil", Values: []string{"T", "F"}}},
 		Binder: &an.Binder{Fn: fn, Re: []an.ReRole{an.RE(`^p2\(.*\)#(\d)$`, "F#$1")},
 			Eq: map[string]string{fmt.Sprintf("F#%d|nil", nres-1): "ferrnil", "F#0|nil": "outnil"}},
 		Targets: []an.Loc{g.Locate(declined[0]), g.Locate(writeCall.Expr)}, Names: []string{"declined return", "conditional write"},
@@ -353,11 +353,11 @@ func c07Etcd(c *core.Ctx) {
 	cStmt := stmtOf(fn, commit.Expr)
 	if len(after) == 1 && cStmt != nil {
 		t := an.Table{G: g, From: g.Locate(cStmt), Opts: an.ExecOpts{Header: header},
-			Atoms:   []an.Atom{{Name: "succ", Values: []string{"T", "F"}}, {Name: "errnil", Values: []string{"T", "F"}}},
+			Atoms: []an.Atom{{Name: "succ", Values: []string{"T", "F"}}, {Name: "errnil", Values: []string{"T", "F"}}},
 			Binder: &an.Binder{Fn: fn, Re: []an.ReRole{an.RE(`^recv\.cli\.Txn\(.*\)\.Commit\(\)#(\d)`, "TXN#$1")},
 				Bool: map[string]string{"TXN#0.Succeeded": "succ"}, Eq: map[string]string{"TXN#1|nil": "errnil"}},
 			Targets: []an.Loc{g.Locate(after[0])}, Names: []string{"return nil"},
-			Want:    func(r an.Row, _ int) an.Tri { return an.FromBool(r["succ"] == "T" && r["errnil"] == "T") }}
+			Want: func(r an.Row, _ int) an.Tri { return an.FromBool(r["succ"] == "T" && r["errnil"] == "T") }}
 		res := t.Run()
 		c.Check(res.OK(), "R3", "backend=etcd:success", after[0].Pos(), "success return ⇔ Txn err==nil ∧ result.Succeeded: "+res.Summary(), res.Rows)
 	} else {
@@ -418,7 +418,7 @@ func c07Memberlist(c *core.Ctx) {
 			Binder: &an.Binder{Fn: fn, Eq: map[string]string{MC + "#4|nil": "errnil", MC + "#4|pkg.errVersionMismatch": "mismatch"},
 				Cmp: map[string]string{MC + "#1|0": "ver"}},
 			Targets: []an.Loc{g.Locate(after[0])}, Names: []string{"success return"},
-			Want:    func(r an.Row, _ int) an.Tri { return an.FromBool(r["errnil"] == "T" && r["ver"] == "gt") }}
+			Want: func(r an.Row, _ int) an.Tri { return an.FromBool(r["errnil"] == "T" && r["ver"] == "gt") }}
 		// errVersionMismatch comparison: when errnil=T it is false; otherwise unknown -> either way returns error
 		t.Binder.Row = nil
 		res := t.Run()
@@ -460,7 +460,7 @@ func c07Memberlist(c *core.Ctx) {
 				Atoms:   []an.Atom{{Name: "errnil", Values: []string{"T", "F"}}},
 				Binder:  &an.Binder{Fn: cas, Eq: map[string]string{TC + "#5|nil": "errnil"}},
 				Targets: []an.Loc{cg.Locate(nilR[0])}, Names: []string{"return nil"},
-				Want:    func(r an.Row, _ int) an.Tri { return an.FromBool(r["errnil"] == "T") }}
+				Want: func(r an.Row, _ int) an.Tri { return an.FromBool(r["errnil"] == "T") }}
 			res := t.Run()
 			c.Check(res.OK(), "R3", "backend=memberlist:KV.CAS", nilR[0].Pos(), "KV.CAS returns nil ⇔ the attempt returned no error: "+res.Summary(), res.Rows)
 			c.Check(len(tcs[0].Expr.Args) == 3 && cas.Canon(tcs[0].Expr.Args[2]) == "p3", "R6", "wrapper=memberlist.KV.CAS", tcs[0].Expr.Pos(), "f forwarded unchanged to trySingleCas", 1)
